@@ -89,23 +89,28 @@ def c12core (t4 : Bool) (args res : List String) (c13 : Bool := false) : Verdict
             | 'd' => match (findPeer s a).bind (·.pieceIndex) with | some y => modifyAt s.statuses y (fun _ => .have) | none => s.statuses
             | 'x' => match (findPeer s a).bind (·.pieceIndex) with | some y => modifyAt s.statuses y decr | none => s.statuses
             | _ => s.statuses
+          -- a Have sets the announced bit before the chooser is consulted
+          let haveIdx : Nat := (argS.toNat?).getD 0
           let piecesAtChoice : List Pieces := match c with
             | 'b' => s.peers.map (fun p => if p.addr = a then bitsOfString argS else p.pieces)
+            | 'h' => s.peers.map (fun p => if p.addr = a then p.pieces.set haveIdx true else p.pieces)
             | _ => allPieces
-          let tgtAtChoice : Pieces := if c = 'b' then bitsOfString argS else target
+          let tgtAtChoice : Pieces := if c = 'b' then bitsOfString argS else if c = 'h' then target.set haveIdx true else target
           let noneOk := admissible stAtChoice piecesAtChoice tgtAtChoice none
           let someElig : Option Nat := (List.range np).find? (fun j => decide (eligible stAtChoice piecesAtChoice tgtAtChoice j))
           let replyIdx : Option Nat := if reply.startsWith "R" then (reply.drop 2).toString.toNat? else none
           let chosen : Option Nat := match replyIdx with
             | some i => some i
-            | none => if c = 'b' then (if reply = "BI" then someElig else none) else if noneOk then none else someElig
+            | none => if c = 'b' then (if reply = "BI" then someElig else none)
+                      else if c = 'h' ∧ reply = "In" then someElig
+                      else if noneOk then none else someElig
           let ev : Option Ev := match c with
             | 'a' => some (.add a np)
             | 'c' => some (.choke a)
             | 'u' => some (.unchoke a chosen)
             | 'i' => some (.interested a)
             | 'n' => some (.notInterested a chosen)
-            | 'h' => argS.toNat?.map (.have a ·)
+            | 'h' => argS.toNat?.map (.have a · chosen)
             | 'b' => some (.bitfield a (bitsOfString argS) chosen)
             | 'd' => some (.pieceDone a chosen)
             | 'x' => some (.pieceCancel a chosen)
@@ -117,27 +122,12 @@ def c12core (t4 : Bool) (args res : List String) (c13 : Bool := false) : Verdict
             -- (iv) a request names a piece the peer advertises and the client lacks, chosen admissibly
             let askedBad : Option String := match replyIdx with
               | some i =>
-                if c = 'h' then
-                  (if hasPiece ((target.set i true)) i && s.statuses.getD i .have ≠ .have then none else some "iv-asked-for-unadvertised-or-owned")
-                else if admissible stAtChoice piecesAtChoice tgtAtChoice (some i) then none else some "iv-asked-pick-not-admissible"
-              | none => none
-            -- C13 on the pick made on the Have path (`Peer::handle_have` assigns the announced piece without consulting
-            -- the chooser): eligible and rarest among what the peer advertises *after* the announcement
-            let havePick : Option Verdict := match replyIdx with
-              | some i =>
-                if c13 ∧ c = 'h' then
-                  let tgt' := target.set i true
-                  let pcs' := s.peers.map (fun p => if p.addr = a then tgt' else p.pieces)
-                  if admissible s.statuses pcs' tgt' (some i) then none
-                  else if decide (eligible s.statuses pcs' tgt' i) then
-                    some { text := "known C13-have-path-pick-ignores-rarity", tag := "hist-have-path-pick-not-rarest" }
-                  else some (vProp "T1-have-path-pick-not-eligible" s!"op-{c}")
-                else none
+                if admissible stAtChoice piecesAtChoice tgtAtChoice (some i) then none else some "iv-asked-pick-not-admissible"
               | none => none
             match askedBad with
             | some cl => some (vProp cl s!"op-{c}")
             | none =>
-            if havePick.isSome then havePick else
+
             -- (i) Have is absorbing
             if (List.range np).any (fun i => s.statuses.getD i .missing = .have && implSt.getD i .missing ≠ .have) then
               some (vProp "i-have-not-absorbing" s!"op-{c}") else
